@@ -217,3 +217,33 @@ End Meas.
 Definition no_stop : node -> option nat := fun _ => None.
 Definition ns_count : node -> nat := meas no_stop 1.
 Definition ns_count_list : list node -> nat := meas_list no_stop 1.
+
+(** ** Which names are dereferenced on the hook namespace (C05).  The measure [badname ok] weighs a member expression
+    [_ddiast.<name>] by whether [name] is acceptable ([_ddiast[..]] is not); everything else weighs nothing. *)
+Definition name_weight (ok : string -> bool) (n : node) : nat :=
+  match n with
+  | Node (K KMember _ _) [_; prop] =>
+      match ident_name_sym prop with
+      | Some x => if ok x then 0 else 1
+      | None => 1
+      end
+  | _ => 1
+  end.
+
+Definition stop_names (ok : string -> bool) (n : node) : option nat :=
+  if is_ns_member n then Some (name_weight ok n) else None.
+
+Definition badname (ok : string -> bool) : node -> nat := meas (stop_names ok) 0.
+Definition badname_list (ok : string -> bool) : list node -> nat := meas_list (stop_names ok) 0.
+
+
+(** The members on the namespace, at any depth (identifiers and leaves have no expression children). *)
+Fixpoint ns_members (n : node) : list node :=
+  match n with
+  | Node t cs =>
+      if is_ident (Node t cs) || leaf (Node t cs) then []
+      else
+        (if is_ns_member (Node t cs) then [Node t cs] else []) ++
+        (fix go (l : list node) : list node := match l with [] => [] | c :: l' => ns_members c ++ go l' end) cs
+  end.
+
